@@ -100,6 +100,34 @@ fn decode_ntriples_literal(term: &str) -> Option<(String, &str)> {
     None
 }
 
+/// Returns an N3 line without its trailing `# comment`.  A `#` inside an IRI
+/// reference (`<http://example.org/ns#term>`) or inside a string literal does not
+/// start a comment.
+fn strip_n3_comment(line: &str) -> &str {
+    let mut in_iri = false;
+    let mut in_literal = false;
+    let mut escaped = false;
+
+    for (offset, character) in line.char_indices() {
+        if escaped {
+            escaped = false;
+            continue;
+        }
+        match character {
+            '\\' if in_literal => escaped = true,
+            '"' if !in_iri => in_literal = !in_literal,
+            '<' if !in_literal => in_iri = true,
+            '>' if !in_literal => in_iri = false,
+            // An IRI reference cannot contain whitespace: `<` was an operator such as `<=`.
+            ' ' | '\t' if in_iri => in_iri = false,
+            '#' if !in_iri && !in_literal => return &line[..offset],
+            _ => {}
+        }
+    }
+
+    line
+}
+
 fn decode_form_component(component: &str) -> String {
     let normalized = component
         .bytes()
@@ -1277,11 +1305,7 @@ impl SparqlDatabase {
                 let mut statement = String::new();
 
                 for raw_line in chunk {
-                    let mut line = raw_line.as_str();
-                    if let Some(comment_start) = line.find('#') {
-                        line = &line[..comment_start];
-                        line = line.trim();
-                    }
+                    let line = strip_n3_comment(raw_line.as_str()).trim();
                     if line.is_empty() {
                         continue;
                     }
